@@ -217,6 +217,12 @@ def programs(rep, tier, seed):
     for _ in range(20000 if tier == "thorough" else 3000):
         a, b = rng.choice(d2), rng.choice(d2)
         exprs.append((rng.choice([f"({a}) {rng.choice(BIN)} ({b})", f"({a}) ? ({b}) : 1", f"[{a}].map(x, {b})", f"size({a}) + {b}", f"!({a}) || {b}"]), False))
+    # deterministic: every accessor that takes a zone, over texts that look like zone names (a directory of the zone
+    # database, a zone, an unknown zone, an offset, the empty text) - not left to the sampled pairs
+    for m in ("getHours", "getDate", "getDayOfWeek", "getFullYear", "getMinutes"):
+        for z in ('"America"', '"Etc"', '"America/Nowhere"', '"America/New_York"', '"+14:00"', '""', '"."', '"/"', '"posix"'):
+            exprs.append((f"vts.{m}({z})", False))
+            exprs.append((f"timestamp(\"2020-01-01T00:00:00Z\").{m}({z}) == 1 || true", False))
     exprs = list(dict.fromkeys(exprs))
     chunks = [exprs[i::64] for i in range(64)]
     ctx = mp.get_context("fork")
